@@ -1,0 +1,62 @@
+//go:build verif
+
+package gobinlog
+
+// Contract for statement classification (property C02: "boundary statements are recognised whatever their letter
+// case"). The classifier takes the first word of the statement (up to the first space), lower-cases it and looks it
+// up in a table of twelve keywords.
+//
+// Decided, one unit per keyword (case functions; the case is the assumption "the first word is this keyword in some
+// mixture of ASCII upper and lower case"): the result is that keyword's statement type. Not decided: that a first
+// word which is none of the keywords is classified unknown (needs reasoning about all lengths and about
+// strings.ToLower on non-ASCII input, whose result may be an ASCII keyword: U+212A KELVIN SIGN lower-cases to k).
+
+func specLowerASCII(b byte) byte {
+	if b >= 'A' && b <= 'Z' {
+		return b + 32
+	}
+	return b
+}
+
+// the first word of sql is kw, ignoring ASCII letter case (kw is lower case and has no space)
+func specFirstWordIs(sql string, kw string) bool {
+	if len(sql) < len(kw) {
+		return false
+	}
+	for i := 0; i < len(kw); i++ {
+		if specLowerASCII(sql[i]) != kw[i] {
+			return false
+		}
+	}
+	return len(sql) == len(kw) || sql[len(kw)] == ' '
+}
+
+func vc_GetStatementCategory_requires(sql string) bool { return true }
+
+func vc_GetStatementCategory_ensures_keyword(sql string, res StatementType) bool {
+	return (!specFirstWordIs(sql, "begin") || res == StatementBegin) &&
+		(!specFirstWordIs(sql, "commit") || res == StatementCommit) &&
+		(!specFirstWordIs(sql, "rollback") || res == StatementRollback) &&
+		(!specFirstWordIs(sql, "insert") || res == StatementInsert) &&
+		(!specFirstWordIs(sql, "update") || res == StatementUpdate) &&
+		(!specFirstWordIs(sql, "delete") || res == StatementDelete) &&
+		(!specFirstWordIs(sql, "create") || res == StatementCreate) &&
+		(!specFirstWordIs(sql, "alter") || res == StatementAlter) &&
+		(!specFirstWordIs(sql, "drop") || res == StatementDrop) &&
+		(!specFirstWordIs(sql, "truncate") || res == StatementTruncate) &&
+		(!specFirstWordIs(sql, "rename") || res == StatementRename) &&
+		(!specFirstWordIs(sql, "set") || res == StatementSet)
+}
+
+func vc_case_Stmt_begin(sql string) bool    { return specFirstWordIs(sql, "begin") }
+func vc_case_Stmt_commit(sql string) bool   { return specFirstWordIs(sql, "commit") }
+func vc_case_Stmt_rollback(sql string) bool { return specFirstWordIs(sql, "rollback") }
+func vc_case_Stmt_insert(sql string) bool   { return specFirstWordIs(sql, "insert") }
+func vc_case_Stmt_update(sql string) bool   { return specFirstWordIs(sql, "update") }
+func vc_case_Stmt_delete(sql string) bool   { return specFirstWordIs(sql, "delete") }
+func vc_case_Stmt_create(sql string) bool   { return specFirstWordIs(sql, "create") }
+func vc_case_Stmt_alter(sql string) bool    { return specFirstWordIs(sql, "alter") }
+func vc_case_Stmt_drop(sql string) bool     { return specFirstWordIs(sql, "drop") }
+func vc_case_Stmt_truncate(sql string) bool { return specFirstWordIs(sql, "truncate") }
+func vc_case_Stmt_rename(sql string) bool   { return specFirstWordIs(sql, "rename") }
+func vc_case_Stmt_set(sql string) bool      { return specFirstWordIs(sql, "set") }
